@@ -124,9 +124,12 @@ func runC36(c *eng.Ctx) {
 		})
 		c.Check("R2", f.Where(), "accessor "+acc+" has an emitting arm that reads parser fields", n > 0, p.Pos(f.Body.Pos()), fmt.Sprintf("%d field reads", n))
 	}
-	delete(emitted, "ts") // the timestamp of the last collected series: cached by Next for every series, read in both arms
 	names := eng.SortedKeys(emitted)
-	c.Check("R2", N, "the emitting arms of the accessors read {bytesNHCB, exemplars, fhNHCB, hNHCB, lsetNHCB, stNHCB}", strings.Join(names, ",") == "bytesNHCB,exemplars,fhNHCB,hNHCB,lsetNHCB,stNHCB", "", strings.Join(names, ","))
+	c.Check("R2", N, "the emitting arms of the accessors read at least the histogram, its labels, text, exemplars, timestamp and start timestamp (≥ 7 fields)", len(names) >= 7, "", strings.Join(names, ","))
+	// what is emitted is built from what was recorded while collecting, never from the cache of the entry that triggered the flush
+	for _, cur := range []string{"bytes", "ts", "value", "h", "fh", "lset"} {
+		pn.Hasnt("R2", p.FieldUse(N+"."+cur))
+	}
 	for _, name := range names {
 		st := p.Store(N + "." + name)
 		if name == "exemplars" {
@@ -144,6 +147,11 @@ func runC36(c *eng.Ctx) {
 		return nodeText(l.Node) == "p.exemplars = p.tempExemplars[:p.tempExemplarCount]"
 	})
 	pn.Only("R2", p.Store(N+".lsetNHCB"), "takes the labels recorded when collection started", func(l eng.Loc) bool { return nodeText(l.Node) == "p.lsetNHCB = p.tempLsetNHCB" })
+	pn.Only("R2", p.Store(N+".tsNHCB"), "is nil or points to a copy of the timestamp recorded when collection started", func(l eng.Loc) bool {
+		t := nodeText(l.Node)
+		return t == "p.tsNHCB = nil" || (t == "p.tsNHCB = &ts" && pn.UnderCond(l, "p.tempHasTS"))
+	})
+	pn.Only("R2", eng.AssignVar("ts"), "copies the recorded timestamp", func(l eng.Loc) bool { return nodeText(l.Node) == "ts := p.tempTS" })
 	pn.Only("R2", p.Store(N+".stNHCB"), "takes the start timestamp recorded when collection started", func(l eng.Loc) bool { return nodeText(l.Node) == "p.stNHCB = p.tempST" })
 	pn.Only("R2", p.Store(N+".hNHCB"), "stores the converted integer histogram or clears it", func(l eng.Loc) bool {
 		t := nodeText(l.Node)
@@ -166,7 +174,7 @@ func runC36(c *eng.Ctx) {
 
 	// ---- R3 collecting ----
 	{
-		begin := []eng.Matcher{p.Call(N + ".storeClassicLabels"), p.Store(N + ".tempST"), p.Store(N + ".tempLsetNHCB")}
+		begin := []eng.Matcher{p.Call(N + ".storeClassicLabels"), p.Store(N + ".tempST"), p.Store(N + ".tempLsetNHCB"), p.Store(N + ".tempHasTS")}
 		for _, b := range begin {
 			pc.Has("R3", b, 1)
 			pc.Only("R3", b, "happens exactly when a new collection starts", func(l eng.Loc) bool { return pc.UnderCond(l, "p.state != stateCollecting") })
@@ -179,6 +187,11 @@ func runC36(c *eng.Ctx) {
 			t := nodeText(l.Node)
 			return (t == "p.tempST = p.parser.StartTimestamp()" && pc.UnderCond(l, "p.parseST")) || (t == "p.tempST = 0" && pc.UnderCondFalse(l, "p.parseST"))
 		})
+		pc.Only("R3", p.Store(N+".tempHasTS"), "records whether the collected series has a timestamp", func(l eng.Loc) bool { return nodeText(l.Node) == "p.tempHasTS = p.ts != nil" })
+		pc.Only("R3", p.Store(N+".tempTS"), "copies the collected series' timestamp by value", func(l eng.Loc) bool {
+			return nodeText(l.Node) == "p.tempTS = *p.ts" && pc.UnderCond(l, "p.tempHasTS")
+		})
+		pc.Has("R3", p.Store(N+".tempTS"), 1)
 		pc.DomOK("R3", p.Call(N+".storeExemplars"))
 		pc.DomOK("R3", callText("updateHist(&p.tempNHCB)"))
 		// suffix → setter, each with the value of this series
@@ -220,6 +233,53 @@ func runC36(c *eng.Ctx) {
 				return gb.UnderCond(l, "ok") && eng.ExprString(l.Node.(*ast.ReturnStmt).Results[1]) == "r" && strings.Contains(nodeTextOfEnclosingIf(gb, l), `strings.CutSuffix(s, "`+suf+`")`)
 			})
 		}
+	}
+	// ---- R6 exemplars ----
+	{
+		// The wrapped parsers fill an exemplar in place and set HasTs/Ts only when the exemplar has a timestamp
+		// (derived below), so every slot handed to them must be zero.
+		cond := 0
+		for _, filler := range []string{"model/textparse:OpenMetricsParser.Exemplar", "model/textparse:ProtobufParser.Exemplar"} {
+			f := c.Fn(filler)
+			for _, l := range f.Find(p.Store("model/exemplar:Exemplar.HasTs")) {
+				if len(f.CondsOf(l.Node)) > 0 {
+					cond++
+				}
+			}
+		}
+		c.Check("R6", N, "the wrapped parsers' Exemplar() set HasTs only conditionally (callers must pass a zeroed exemplar)", cond == 2, "", fmt.Sprintf("%d conditional stores", cond))
+		ne := c.Fn(N + ".nextExemplarPtr")
+		zero := eng.Node("a zero exemplar.Exemplar{} written to the slot", func(g *eng.Graph, n ast.Node) bool {
+			as, ok := n.(*ast.AssignStmt)
+			if !ok || len(as.Rhs) != 1 {
+				return false
+			}
+			r := eng.ExprString(as.Rhs[0])
+			return (r == "exemplar.Exemplar{}" && strings.HasPrefix(eng.ExprString(as.Lhs[0]), "*")) || (r == "exemplar.Exemplar{}" && strings.HasPrefix(eng.ExprString(as.Lhs[0]), "p.tempExemplars[")) || r == "append(p.tempExemplars, exemplar.Exemplar{})"
+		})
+		ne.DomOK("R6", zero)
+		// a kept classic series is returned to the caller after its exemplars were taken from the wrapped parser:
+		// Exemplar() must serve them from what was stored
+		ex := c.Fn(N + ".Exemplar")
+		drains := len(pc.Find(p.Call(N+".storeExemplars"))) > 0 && len(pc.CondsOf(pc.Find(p.Call(N + ".storeExemplars"))[0].Node)) == 0
+		replays := len(ex.Find(p.FieldUse(N+".tempExemplars"))) > 0
+		if replays {
+			// the window served is exactly what storeExemplars added for this series, and it is closed when the cursor moves
+			pc.PassesBetween("R6", p.Store(N+".seriesExemplarPos"), p.Call(N+".storeExemplars"), p.Store(N+".seriesExemplarEnd"))
+			pc.Only("R6", p.Store(N+".seriesExemplarPos"), "opens the window at the number of exemplars stored so far", func(l eng.Loc) bool {
+				return nodeText(l.Node) == "p.seriesExemplarPos = p.tempExemplarCount"
+			})
+			pc.Only("R6", p.Store(N+".seriesExemplarEnd"), "closes the window at the number of exemplars stored so far", func(l eng.Loc) bool {
+				return nodeText(l.Node) == "p.seriesExemplarEnd = p.tempExemplarCount"
+			})
+			nx.Dom("R6", stmt("p.seriesExemplarPos, p.seriesExemplarEnd = 0, 0"), eng.Or(callText("p.parser.Next()"), p.Call(N+".handleClassicHistogramSeries")))
+			ex.Only("R6", eng.Return("return true", func(g *eng.Graph, rs *ast.ReturnStmt) bool { return len(rs.Results) == 1 && eng.ExprString(rs.Results[0]) == "true" }),
+				"serves the emitted histogram's exemplars while emitting, else the window of the series under the cursor", func(l eng.Loc) bool {
+					return ex.UnderCond(l, "p.state == stateEmitting") || ex.UnderCond(l, "p.seriesExemplarPos < p.seriesExemplarEnd")
+				})
+		}
+		c.Check("R6", ex.Where(), "a kept classic series' exemplars, drained from the wrapped parser while collecting, are served by Exemplar() from the stored copies", !drains || replays, p.Pos(ex.Body.Pos()),
+			"processClassicHistogramSeries drains the wrapped parser's exemplars unconditionally; Exemplar() outside the emitting state only delegates to the drained parser")
 	}
 	// ---- R4 flush points in Next ----
 	{
